@@ -33,7 +33,7 @@ def step {α σ} (act : α → σ → σ) (toks : List (Tok α)) : Cfg σ → Op
       match st with
       | [] => some (pos+1, [], s)
       | it :: st' =>
-        if it.index = it.count - 1 then
+        if it.count > 0 ∧ it.index = it.count - 1 then
           let e := if it.endPos = 0 then scanEnd (toks.drop pos) pos 0 else it.endPos
           if e > 0 then some (e, st', s) else some (pos+1, st', s)
         else some (pos+1, it :: st', s)
